@@ -59,21 +59,33 @@ fn single(ctx: &mut Ctx) {
         let fwd = f.uleb_refs.iter().any(|r| matches!(r.entry, 3 | 5 | 6));
         let tag = "single";
         let mut die_block: Option<Vec<u8>> = None;
+        // every other case hosts the expression in the second unit of the section (non-zero
+        // unit offset): the two units and all references are exchanged
+        let swapped = (ai as u64 + w + i % 64) % 2 == 1;
+        let hu = if swapped { 1 } else { 0 };
+        let hosted = if swapped { swap_units(&prog) } else { prog.clone() };
+        let layout = || {
+            let mut l = single_layout(enc, enc1);
+            if swapped {
+                l.units.swap(0, 1);
+            }
+            l
+        };
         if fwd {
-            let mut a = single_layout(enc, enc1);
-            a.units[0].entries[SINGLE_HOST].attrs = vec![AttrPlan::Expr(prog.clone())];
+            let mut a = layout();
+            a.units[hu].entries[SINGLE_HOST].attrs = vec![AttrPlan::Expr(hosted.clone())];
             verify_plan(ctx, &a, &Opts { tag, expect: Expect::Auto, eval: false, twin: false });
-            let mut b = single_layout(enc, enc1);
-            b.units[0].entries[SINGLE_HOST].attrs = vec![AttrPlan::LocList(vec![prog.clone()])];
+            let mut b = layout();
+            b.units[hu].entries[SINGLE_HOST].attrs = vec![AttrPlan::LocList(vec![hosted.clone()])];
             verify_plan(ctx, &b, &Opts { tag, expect: Expect::Auto, eval: false, twin: false });
         } else {
-            let mut a = single_layout(enc, enc1);
-            a.units[0].entries[SINGLE_HOST].attrs = vec![AttrPlan::Expr(prog.clone()), AttrPlan::LocList(vec![prog.clone(), prog.clone()])];
+            let mut a = layout();
+            a.units[hu].entries[SINGLE_HOST].attrs = vec![AttrPlan::Expr(hosted.clone()), AttrPlan::LocList(vec![hosted.clone(), hosted.clone()])];
             let blocks = verify_plan(ctx, &a, &Opts { tag, expect: Expect::Auto, eval: false, twin: i % 3 == 0 });
             if let Some(bl) = blocks {
-                let d = bl.get(&(0, SINGLE_HOST, 0, usize::MAX));
-                let l0 = bl.get(&(0, SINGLE_HOST, 1, 0));
-                let l1 = bl.get(&(0, SINGLE_HOST, 1, 1));
+                let d = bl.get(&(hu, SINGLE_HOST, 0, usize::MAX));
+                let l0 = bl.get(&(hu, SINGLE_HOST, 1, 0));
+                let l1 = bl.get(&(hu, SINGLE_HOST, 1, 1));
                 if let (Some(d), Some(l0), Some(l1)) = (d, l0, l1) {
                     if d == l0 && d == l1 {
                         ctx.obs("crosshost.bytes_equal");
@@ -171,7 +183,7 @@ fn gen_plan(r: &mut Rng) -> Plan {
 }
 
 fn rand(ctx: &mut Ctx) {
-    let n = ctx.size(12_000, 150_000, 6);
+    let n = ctx.size(12_000, 200_000, 6);
     for i in 0..n {
         if !ctx.want("rand", i) {
             continue;
